@@ -196,7 +196,7 @@ type AnExpression struct {
 	Expression ExpressionInterface
 }
 
-func (e *AnExpression) MarshalXML(en *xml.Encoder, start xml.StartElement) (err error) {
+func (e AnExpression) MarshalXML(en *xml.Encoder, start xml.StartElement) (err error) {
 	switch tt := e.Expression.(type) {
 	case *FormalExpression:
 		start.Attr = append(start.Attr, xml.Attr{
